@@ -6,6 +6,7 @@ import (
 	"go/constant"
 	"go/token"
 	"go/types"
+	"os"
 	"sort"
 	"strconv"
 	"strings"
@@ -1183,6 +1184,56 @@ type commentForm struct {
 // each condition is a disjunction of `r == 'c'` [&& l.peekIs(1, 'd')], each body returns skipCommentUntil(…) with a
 // constant string (the terminator) and a constant bool among its arguments.
 func (w *World) commentOpeners() []commentForm {
+	if w.openersDone {
+		return w.openers
+	}
+	w.openersDone = true
+	w.openers = w.commentOpenersByFacts()
+	if w.openers == nil {
+		w.openers = w.commentOpenersAST()
+	}
+	return w.openers
+}
+
+// commentOpenersByFacts: (*Lexer).skipComment interpreted in the LEXBOUNDS byte domain, whatever it looks like (a rune
+// switch, byte peeks, prefix tests): at every call that hands over to a cursor-moving method of the lexer, the bytes known
+// at the cursor are the opener, the constant string and bool among the arguments the terminator and "must be closed".
+// nil when the interpretation learns nothing (the AST reading is used then).
+func (w *World) commentOpenersByFacts() []commentForm {
+	root := w.fn(w.Mem, "(*Lexer).skipComment")
+	if root == nil {
+		return nil
+	}
+	e := w.newLexBounds()
+	e.bytes, e.shallow, e.shallowLeaf = true, true, true
+	e.openerRoot = root
+	seen := map[string]bool{}
+	var got []commentForm
+	bad := false
+	e.openerProbe = func(call *ssa.Call, cf commentForm) {
+		if os.Getenv("VERIF_OPENER_DEBUG") != "" {
+			fmt.Printf("OPENER %s: %q term %q mustEnd %v\n", w.pos(call.Pos()), cf.opener, cf.term, cf.mustEnd)
+		}
+		if cf.opener == "" || cf.term == "\x00?" {
+			bad = true
+			return
+		}
+		k := fmt.Sprintf("%q %q %v", cf.opener, cf.term, cf.mustEnd)
+		if !seen[k] {
+			seen[k] = true
+			got = append(got, cf)
+		}
+	}
+	e.runRoot(root, map[string]bool{"noPanic": false})
+	e.runRoot(root, map[string]bool{"noPanic": true})
+	if bad || len(got) == 0 {
+		return nil
+	}
+	sort.Slice(got, func(i, j int) bool { return got[i].opener < got[j].opener })
+	return got
+}
+
+func (w *World) commentOpenersAST() []commentForm {
 	fd := findFuncDecl(w.Mem, "Lexer", "skipComment")
 	if fd == nil {
 		return nil
